@@ -6,6 +6,7 @@ package props
 import (
 	"fmt"
 	"math/rand"
+	"os"
 	"sort"
 )
 
@@ -43,7 +44,7 @@ func (rc *RunCtx) Logf(f string, a ...interface{}) {
 		rc.trace = append(rc.trace, s)
 	}
 	if rc.Verbose {
-		fmt.Println("  | " + s)
+		fmt.Fprintln(os.Stderr, "  | "+s)
 	}
 }
 
